@@ -1,6 +1,6 @@
 /* N(k) stand-in for C17 on the REAL library: the k-th memory request made during yaep_create_grammar, yaep_parse_grammar,
    yaep_read_grammar or yaep_parse fails (malloc/calloc/realloc of the process are interposed), for EVERY k until the call succeeds.
-   Expected: NULL respectively YAEP_NO_MEMORY, no crash, the object (and a second, unrelated object) can still be freed, the second
+   Fresh memory is filled with junk.  Expected: NULL respectively YAEP_NO_MEMORY, no crash, the object (and a second, unrelated object) can still be freed, the second
    object still parses.  Each k runs in a forked child so that a crash is observed as a wait status.  Built with UBSan only
    (AddressSanitizer owns malloc). */
 #include <stdio.h>
@@ -12,9 +12,13 @@
 extern void *__libc_malloc (size_t); extern void *__libc_calloc (size_t, size_t); extern void *__libc_realloc (void *, size_t);
 static long fail_at = -1, count;
 static int hit (void) { return fail_at >= 0 && ++count == fail_at; }
-void *malloc (size_t n) { return hit () ? NULL : __libc_malloc (n); }
+/* fresh memory is filled with junk (0xBE), as a debugging allocator would: an element that is freed or used before it is
+   initialised must not get away with the zeroes a fresh page happens to hold (this is how F33 escaped the first version) */
+extern size_t malloc_usable_size (void *);
+void *malloc (size_t n) { void *p; if (hit ()) return NULL; p = __libc_malloc (n); if (p != NULL) memset (p, 0xBE, n); return p; }
 void *calloc (size_t a, size_t b) { return hit () ? NULL : __libc_calloc (a, b); }
-void *realloc (void *p, size_t n) { return hit () ? NULL : __libc_realloc (p, n); }
+void *realloc (void *p, size_t n)
+{ size_t old = p != NULL ? malloc_usable_size (p) : 0; void *q; if (hit ()) return NULL; q = __libc_realloc (p, n); if (q != NULL && n > old) memset ((char *) q + old, 0xBE, n - old); return q; }
 static const int *toks; static int ntok, pos;
 static int rd (void **a) { *a = NULL; return pos < ntok ? toks[pos++] : -1; }
 static void er (int a, void *b, int c, void *d, int e, void *f) { (void) a; (void) b; (void) c; (void) d; (void) e; (void) f; }
